@@ -33,15 +33,15 @@ TRUSTED = [
 ]
 ASSUMPTIONS = [
     'datasets are 1-d glue.core.Data objects, coordinates are None or 1-d AffineCoordinates with slope +-1 (integer-affine both ways)',
-    'no key joins (JoinLink), no derived (internal arithmetic) components, coordinate components are not removed one by one',
+    'no key joins (JoinLink); internal derived components are single-level (y = c0 + sum ci*xi over main/coordinate attributes of the '
+    'same dataset, never over other derived ones); coordinate components are not removed one by one',
     'links are added over attributes that are components of datasets currently in the collection when the liveness oracle applies '
     '(histories that add links over other attributes are compared with the model only)',
     'pixel_aligned_data bookkeeping of update_externally_derivable_components is not covered',
-    'selections are evaluated on fresh InequalitySubsetState objects; a persistent one is checked under the known-finding key '
-    'memo-stale-after-link-change (the memoised mask is not invalidated by link changes: property C05\'s mechanism)',
+    'selections are evaluated on a fresh InequalitySubsetState object and on one persistent object per history (the latter must '
+    'agree with the former: memoised masks have to be invalidated by link / component changes)',
 ]
 
-KF_MEMO = 'memo-stale-after-link-change'
 
 
 # ====================================================================== helpers
@@ -108,7 +108,12 @@ def tup(x):
 def norm_case(case):
     """make a case loaded from JSON look like a generated one (tuples for cids, int keys)"""
     c = dict(case)
-    c['datasets'] = [dict(d, main=list(d['main']), coords=(None if d['coords'] is None else tuple(d['coords']))) for d in case['datasets']]
+    c['datasets'] = [dict(d, main=list(d['main']), derived=list(d.get('derived', [])),
+                          coords=(None if d['coords'] is None else tuple(d['coords']))) for d in case['datasets']]
+    ders = case.get('ders', {})
+    if not isinstance(ders, dict):
+        ders = {tuple(k): (tup(fr), tup(fn)) for k, fr, fn in ders}
+    c['ders'] = ders
     if isinstance(case['vals'], dict):
         vals = {}
         for k, v in case['vals'].items():
@@ -134,6 +139,7 @@ def norm_case(case):
 def case_json(case):
     c = dict(case)
     c['vals'] = [[list(k), list(v)] for k, v in sorted(case['vals'].items())]
+    c['ders'] = [[list(k), fr, fn] for k, (fr, fn) in sorted(case.get('ders', {}).items())]
     return c
 
 
@@ -233,6 +239,11 @@ def w_op(pool, o):
     raise ValueError(k)
 
 
+def w_der(case, c):
+    fr, fn = case['ders'][c]
+    return w_link(2000 + 10 * c[0] + c[1], fr, c, fn)
+
+
 def initial_own(ds):
     own = [(ds['id'], 0)]
     if ds['coords'] is not None:
@@ -255,11 +266,12 @@ def w_case(case):
                         (0, [w_cid(c) for c in initial_own(ds)]),
                         (0, [w_cid(c) for c in coord]),
                         (0, [w_cid(c) for c in world]),
-                        (0, ints)]))
+                        (0, ints),
+                        (0, [w_der(case, (d, k)) for k in ds.get('derived', [])])]))
     universe = sorted(case['vals'])
     vst = (0, [(0, [w_cid(c), (0, [int(v) for v in case['vals'][c]])]) for c in universe])
     sel = (0, [w_cid(case['sel'][0]), (case['sel'][1], [])])
-    ops = (0, [w_op(case['pool'], o) for o in case['ops']])
+    ops = (0, [((11, [o[1], w_der(case, (o[1], o[2]))]) if o[0] == 'addderived' else w_op(case['pool'], o)) for o in case['ops']])
     return enc((1, [(0, dss), vst, sel, ops]))
 
 
@@ -311,6 +323,8 @@ class Impl:
             self._reg((d, 0), D.pixel_component_ids[0])
             if coords is not None:
                 self._reg((d, 1), D.world_component_ids[0])
+            for k in ds.get('derived', []):
+                self.add_derived(d, k)
         with time_limit(10):
             self.dc = DataCollection([self.data[ds['id']] for ds in case['datasets'] if ds['member']])
         self.universe = sorted(case['vals'])
@@ -321,6 +335,18 @@ class Impl:
     def _reg(self, key, c):
         self.cid[key] = c
         self.num[c] = key
+
+    def add_derived(self, d, k):
+        """internal derived component (d,k) = fn(own attributes), through Data.add_component_link; skipped when it is
+        already a component or an input is not a main/coordinate component (the model's result code 3)"""
+        from glue.core.component_link import ComponentLink
+        D = self.data[d]
+        fr, fn = self.case['ders'][(d, k)]
+        c = self.getcid((d, k))
+        base = D.main_components + D.coordinate_components
+        if c in D.components or not all(self.getcid(f) in base for f in fr):
+            return
+        D.add_component_link(ComponentLink([self.getcid(f) for f in fr], c, using=mkfn(fn)))
 
     def getcid(self, key):
         if key not in self.cid:
@@ -374,6 +400,8 @@ class Impl:
                 D.add_component(np.array(self.case['vals'][(o[1], o[2])], dtype=np.int64), c)
         elif k == 'removecomp':
             self.data[o[1]].remove_component(self.getcid((o[1], o[2])))
+        elif k == 'addderived':
+            self.add_derived(o[1], o[2])
         elif k == 'adddata':
             dc.append(self.data[o[1]])
         elif k == 'removedata':
@@ -408,7 +436,7 @@ class Impl:
         """length of the chain actually stored in D for attribute c (0 for own components); -1 when broken"""
         if seen > 64:
             return -1
-        if c in D._components:
+        if c in D.main_components or c in D.coordinate_components:
             return 0
         comp = D._externally_derivable_components.get(c)
         if comp is None:
@@ -506,11 +534,23 @@ class Abstract:
         self.own = {ds['id']: set(initial_own(ds)) for ds in case['datasets']}
         self.coords = {ds['id']: ds['coords'] is not None for ds in case['datasets']}
         self.spec = {ds['id']: ds for ds in case['datasets']}
+        self.der = {ds['id']: {(ds['id'], k): case['ders'][(ds['id'], k)] for k in ds.get('derived', [])} for ds in case['datasets']}
         self.delay = 0
         self.valid = True     # every link was added over live attributes
 
     def live(self, c):
-        return self.member.get(c[0], False) and c in self.own[c[0]]
+        return self.member.get(c[0], False) and (c in self.own[c[0]] or c in self.der[c[0]])
+
+    def remove_attr(self, d, c):
+        """an attribute goes, and with it the derived attributes computed from it"""
+        self.own[d].discard(c)
+        self.der[d].pop(c, None)
+        for y in [y for y, (fr, fn) in self.der[d].items() if c in fr]:
+            del self.der[d][y]
+
+    def fixed_values(self, d):
+        """the values of d's own derived attributes (components are read as components)"""
+        return {y: apply_spec(fn, [tuple(self.case['vals'][f]) for f in fr]) for y, (fr, fn) in self.der[d].items()}
 
     def entry_live(self, i):
         return all(self.live(c) for fr, to, fn in entry_flat_links(self.case['pool'], i) for c in list(fr) + [to])
@@ -522,9 +562,15 @@ class Abstract:
         elif k == 'setlinks':
             self.valid = self.valid and all(self.entry_live(i) for i in o[1])
         elif k == 'addcomp':
-            self.own[o[1]].add((o[1], o[2]))
+            if (o[1], o[2]) not in self.der[o[1]]:
+                self.own[o[1]].add((o[1], o[2]))
+        elif k == 'addderived':
+            c = (o[1], o[2])
+            fr, fn = self.case['ders'][c]
+            if c not in self.own[o[1]] and c not in self.der[o[1]] and all(f in self.own[o[1]] for f in fr):
+                self.der[o[1]][c] = (fr, fn)
         elif k == 'removecomp':
-            self.own[o[1]].discard((o[1], o[2]))
+            self.remove_attr(o[1], (o[1], o[2]))
         elif k == 'adddata':
             self.member[o[1]] = True
         elif k == 'removedata':
@@ -532,7 +578,7 @@ class Abstract:
         elif k == 'coordsnone':
             if self.coords[o[1]]:
                 self.coords[o[1]] = False
-                self.own[o[1]].discard((o[1], 1))
+                self.remove_attr(o[1], (o[1], 1))
         elif k == 'delaybegin':
             self.delay += 1
         elif k == 'delayend':
@@ -545,13 +591,15 @@ class Abstract:
         for d, ds in self.spec.items():
             if self.member[d] and self.coords[d]:
                 out += coord_links(ds)
+            if self.member[d]:
+                out += [(tuple(fr), y, fn) for y, (fr, fn) in sorted(self.der[d].items())]
         for i in ext_ids:
             if i >= 0:
                 out += entry_flat_links(self.case['pool'], i)
         return out
 
 
-def fixpoint(own, links, ownvals=None):
+def fixpoint(own, links, ownvals=None, fixed=None):
     """breadth-first closure: min depth per attribute; with ownvals also the set of values of the
     hereditarily-shortest derivations.  Independent of the model and of discover_links."""
     depth = {c: 0 for c in own}
@@ -577,7 +625,7 @@ def fixpoint(own, links, ownvals=None):
                         vs.add(apply_spec(fn, list(combo)))
                         if len(vs) > 64:
                             break
-                values[to] = vs
+                values[to] = {fixed[to]} if (fixed and to in fixed) else vs
     return depth, values
 
 
@@ -634,7 +682,7 @@ def check_history(R, case, model_obs=None):
                         continue
                     own = ab.own[d]
                     ownvals = {c: tuple(case['vals'][c]) for c in own}
-                    depth, values = fixpoint(own, links, ownvals)
+                    depth, values = fixpoint(own, links, ownvals, ab.fixed_values(d))
                     closure[d] = (depth, values)
                     want_tab = sorted((c, k) for c, k in depth.items() if k > 0)
                     if o_d['table'] != want_tab:
@@ -661,7 +709,7 @@ def check_history(R, case, model_obs=None):
                     # a persistent selection object (its to_mask is memoised)
                     pm = o_d['pmask']
                     if pm != o_d['mask']:
-                        key = KF_MEMO if (d in impl.pcache and pm == impl.pcache[d]) else None
+                        key = None
                         fails.append(('oracle', dict(where, dataset=d, why='a selection object evaluated before the change keeps returning its memoised mask',
                                                      persistent=pm, fresh=o_d['mask']), key))
             # ---------------- correspondence with the model
@@ -724,8 +772,10 @@ def inv_unit(fn):
 
 
 def gen_world(rng, nds, small=False):
+    """datasets, values and the definitions of internal derived attributes (k = 6, 7; some present from the start)"""
     datasets = []
     vals = {}
+    ders = {}
     for d in range(nds):
         n = rng.choice([2, 3])
         coords = None
@@ -734,14 +784,25 @@ def gen_world(rng, nds, small=False):
         nmain = rng.randint(1, 2 if small else 3)
         main = list(range(2, 2 + nmain))
         member = (d == 0) or rng.random() < 0.8
-        datasets.append({'id': d, 'n': n, 'member': member, 'main': main, 'coords': coords})
         vals[(d, 0)] = tuple(range(n))
         if coords is not None:
             vals[(d, 1)] = tuple(coords[0] * i + coords[1] for i in range(n))
         # a few more attributes that histories may add later
         for k in range(2, 2 + nmain + 2):
             vals[(d, k)] = tuple(rng.randint(-5, 5) for _ in range(n))
-    return datasets, vals
+        base = [(d, 0)] + ([(d, 1)] if coords is not None else []) + [(d, k) for k in main]
+        derived = []
+        for k in (6, 7):
+            if rng.random() < 0.6:
+                m = rng.choice([1, 1, 2])
+                fr = tuple(rng.choice(base) for _ in range(m))
+                fn = rand_fn(rng, m)
+                ders[(d, k)] = (fr, fn)
+                vals[(d, k)] = apply_spec(fn, [vals[f] for f in fr])
+                if rng.random() < 0.6:
+                    derived.append(k)
+        datasets.append({'id': d, 'n': n, 'member': member, 'main': main, 'coords': coords, 'derived': derived})
+    return datasets, vals, ders
 
 
 def gen_pool(rng, datasets, vals, size, live_only=True):
@@ -816,15 +877,21 @@ def gen_history(rng, case, length, foreign=0.05):
             sel = sorted(set(rng.choice(cand) for _ in range(rng.randint(0, 3))))
             o = ('setlinks', tuple(sel))
             ext = list(sel)
-        elif r < 0.62:
+        elif r < 0.63:
             d = rng.choice(dsids)
-            cand = [c for c in case['vals'] if c[0] == d and c[1] >= 2 and c not in ab.own[d]]
-            if not cand:
-                continue
-            o = ('addcomp', d, rng.choice(sorted(cand))[1])
-        elif r < 0.72:
+            if rng.random() < 0.35:
+                cand = [c for c in case['ders'] if c[0] == d and c not in ab.der[d] and all(f in ab.own[d] for f in case['ders'][c][0])]
+                if not cand:
+                    continue
+                o = ('addderived', d, rng.choice(sorted(cand))[1])
+            else:
+                cand = [c for c in case['vals'] if c[0] == d and c[1] >= 2 and c not in ab.own[d] and c not in case['ders']]
+                if not cand:
+                    continue
+                o = ('addcomp', d, rng.choice(sorted(cand))[1])
+        elif r < 0.74:
             d = rng.choice(dsids)
-            cand = [c for c in ab.own[d] if c[1] >= 2]
+            cand = [c for c in ab.own[d] if c[1] >= 2] + list(ab.der[d])
             if not cand:
                 continue
             o = ('removecomp', d, rng.choice(sorted(cand))[1])
@@ -855,8 +922,8 @@ def pick_sel(rng, case):
 
 
 def case_key(case):
-    return (tuple((d['id'], d['n'], d['member'], tuple(d['main']), d['coords']) for d in case['datasets']),
-            tuple(sorted(case['vals'].items())), repr(case['pool']), tuple(case['ops']), case['sel'])
+    return (tuple((d['id'], d['n'], d['member'], tuple(d['main']), d['coords'], tuple(d.get('derived', []))) for d in case['datasets']),
+            tuple(sorted(case['vals'].items())), tuple(sorted(case.get('ders', {}).items())), repr(case['pool']), tuple(case['ops']), case['sel'])
 
 
 # ====================================================================== running a batch of histories
@@ -952,29 +1019,35 @@ def run_histories(R, name, cases, exhaustive, bound):
 
 # ---------------------------------------------------------------------- stream: exhaustive small histories
 def small_world():
-    datasets = [{'id': 0, 'n': 2, 'member': True, 'main': [2], 'coords': None},
-                {'id': 1, 'n': 2, 'member': True, 'main': [2], 'coords': (-1, 2)},
-                {'id': 2, 'n': 2, 'member': False, 'main': [2], 'coords': None}]
+    datasets = [{'id': 0, 'n': 2, 'member': True, 'main': [2], 'coords': None, 'derived': [6]},
+                {'id': 1, 'n': 2, 'member': True, 'main': [2], 'coords': (-1, 2), 'derived': []},
+                {'id': 2, 'n': 2, 'member': False, 'main': [2], 'coords': None, 'derived': []}]
     vals = {(0, 0): (0, 1), (0, 2): (3, -1), (0, 3): (2, 5),
             (1, 0): (0, 1), (1, 1): (2, 1), (1, 2): (4, 0),
             (2, 0): (0, 1), (2, 2): (-2, 1)}
+    ders = {(0, 6): (((0, 2),), (1, (2,))),        # y = 2*x + 1 over the main attribute
+            (0, 7): (((0, 0),), (3, (-1,)))}       # over the pixel axis, added by the history
+    for c, (fr, fn) in ders.items():
+        vals[c] = apply_spec(fn, [vals[f] for f in fr])
     pool = [{'kind': 'same', 'c1': (0, 2), 'c2': (1, 2)},
             {'kind': 'single', 'from': ((1, 0),), 'to': (2, 2), 'fn': (1, (2,)), 'inv': None},
             {'kind': 'single', 'from': ((0, 2),), 'to': (1, 1), 'fn': (1, (-1,)), 'inv': (1, (-1,))},
             {'kind': 'twoway', 'c1': (0, 3), 'c2': (2, 2), 'f': (0, (2,)), 'g': (1, (1,))},
             {'kind': 'single', 'from': ((0, 2), (2, 2)), 'to': (1, 2), 'fn': (0, (1, 1)), 'inv': None},
-            {'kind': 'invof', 'of': 2}]
-    return datasets, vals, pool
+            {'kind': 'invof', 'of': 2},
+            {'kind': 'single', 'from': ((1, 2),), 'to': (0, 6), 'fn': (1, (-1,)), 'inv': (1, (-1,))}]   # touches the derived attribute only
+    return datasets, vals, ders, pool
 
 
 def stream_exhaustive(R):
-    datasets, vals, pool = small_world()
-    alpha_full = [('addlink', 0), ('addlink', 1), ('addlink', 2), ('addlink', 3), ('addlink', 4), ('addlink', 5),
+    datasets, vals, ders, pool = small_world()
+    alpha_full = [('addlink', 0), ('addlink', 1), ('addlink', 2), ('addlink', 3), ('addlink', 4), ('addlink', 5), ('addlink', 6),
+                  ('addderived', 0, 7), ('removecomp', 0, 6),
                   ('removelink', 0), ('removelink', 2), ('setlinks', (1, 3)),
                   ('adddata', 2), ('removedata', 1), ('removedata', 2),
                   ('addcomp', 0, 3), ('removecomp', 0, 2), ('removecomp', 1, 2),
                   ('coordsnone', 1), ('delaybegin',), ('delayend',)]
-    alpha_small = [('addlink', 0), ('addlink', 1), ('addlink', 2), ('addlink', 3), ('removelink', 0),
+    alpha_small = [('addlink', 0), ('addlink', 1), ('addlink', 2), ('addlink', 3), ('addlink', 6), ('removelink', 0),
                    ('adddata', 2), ('removedata', 1), ('removecomp', 0, 2), ('coordsnone', 1), ('delaybegin',), ('delayend',)]
     plans = R.pick([(alpha_full, 2), (alpha_small, 3)], [(alpha_full, 3), (alpha_small, 4)])
     seen = set()
@@ -993,14 +1066,14 @@ def stream_exhaustive(R):
                     elif o[0] == 'delayend' and depth > 0:
                         depth -= 1
                 full = list(ops) + [('delayend',)] * depth
-                cases.append({'datasets': datasets, 'vals': vals, 'pool': pool, 'ops': full, 'sel': ((0, 2), 0)})
+                cases.append({'datasets': datasets, 'vals': vals, 'ders': ders, 'pool': pool, 'ops': full, 'sel': ((0, 2), 0)})
     run_histories(R, 'histories_exhaustive', cases, True,
                   'all operation sequences: %s' % '; '.join('length<=%d over %d operations' % (m, len(a)) for a, m in plans))
 
 
 # ---------------------------------------------------------------------- stream: all small link graphs
 def stream_graphs(R):
-    datasets = [{'id': d, 'n': 2, 'member': True, 'main': [2], 'coords': None} for d in range(3)]
+    datasets = [{'id': d, 'n': 2, 'member': True, 'main': [2], 'coords': None, 'derived': []} for d in range(3)]
     vals = {(0, 0): (0, 1), (1, 0): (0, 1), (2, 0): (0, 1), (0, 2): (1, 4), (1, 2): (-2, 3), (2, 2): (5, -1)}
     a, b, c = (0, 2), (1, 2), (2, 2)
     pool = []
@@ -1020,7 +1093,7 @@ def stream_graphs(R):
     for k in range(1, kmax + 1):
         for sub in itertools.combinations(range(len(pool)), k):
             ops = [('addlink', i) for i in sub] + [('removelink', sub[0])]
-            cases.append({'datasets': datasets, 'vals': vals, 'pool': pool, 'ops': ops, 'sel': (a, 1)})
+            cases.append({'datasets': datasets, 'vals': vals, 'ders': {}, 'pool': pool, 'ops': ops, 'sel': (a, 1)})
     run_histories(R, 'graphs', cases, True, 'every set of 1..%d links out of a pool of %d (one-way, identity, invertible, two-input, two-way) '
                   'over three one-attribute datasets, added one at a time, then the first removed' % (kmax, len(pool)))
 
@@ -1032,9 +1105,9 @@ def stream_random(R):
     for i in range(n):
         rng = R.subrng('hist', i)
         nds = rng.choice([2, 3, 3, 4, 5])
-        datasets, vals = gen_world(rng, nds)
+        datasets, vals, ders = gen_world(rng, nds)
         pool = gen_pool(rng, datasets, vals, rng.randint(3, 10))
-        case = {'datasets': datasets, 'vals': vals, 'pool': pool, 'ops': [], 'sel': None}
+        case = {'datasets': datasets, 'vals': vals, 'ders': ders, 'pool': pool, 'ops': [], 'sel': None}
         case['sel'] = pick_sel(rng, case)
         case['ops'] = gen_history(rng, case, rng.randint(3, 12))
         cases.append(case)
@@ -1044,11 +1117,11 @@ def stream_random(R):
     cases = []
     for i in range(m):
         rng = R.subrng('dense', i)
-        datasets, vals = gen_world(rng, 5)
+        datasets, vals, ders = gen_world(rng, 5)
         for ds in datasets:
             ds['member'] = True
         pool = gen_pool(rng, datasets, vals, rng.randint(8, 14))
-        case = {'datasets': datasets, 'vals': vals, 'pool': pool, 'ops': [], 'sel': None}
+        case = {'datasets': datasets, 'vals': vals, 'ders': ders, 'pool': pool, 'ops': [], 'sel': None}
         case['sel'] = pick_sel(rng, case)
         order = list(range(len(pool)))
         rng.shuffle(order)
